@@ -508,3 +508,16 @@ pub fn generate_stub2(ci: &ClientInfo, _key: &[u64; 2]) -> Result<u32, std::io::
         Ok(c.2)
     }
 }
+
+pub fn rfc2822_stub<Tz: chrono::TimeZone>(_t: &chrono::DateTime<Tz>) -> String
+where
+    Tz::Offset: std::fmt::Display,
+{
+    String::from("Sat, 03 Oct 2026 00:00:00 +0000")
+}
+
+/// `alloc::fmt::format` replacement where the formatted text is not the subject of the
+/// harness (only whether a reply is produced / whether evaluating the arguments panics)
+pub fn fmt_format_stub(_args: std::fmt::Arguments<'_>) -> String {
+    String::from("HTTP/1.1 401 (formatting stubbed)")
+}
